@@ -111,6 +111,9 @@ func TestNodeDense(t *testing.T) {
 				h.Steps = append(h.Steps, rig.Step{Op: "restart"})
 			case 1:
 				h.Steps = append(h.Steps, rig.Step{Op: "snapshot"})
+				if rapid.Bool().Draw(rt, "then-restart") {
+					h.Steps = append(h.Steps, rig.Step{Op: "restart"})
+				}
 			case 2:
 				if i < m-1 {
 					a = rig.Step{Op: "crash", Events: a.Events, Single: a.Single, Pos: rapid.SampledFrom([]string{"before", "after"}).Draw(rt, "pos")}
